@@ -541,7 +541,7 @@ func lastWord(s string) string {
 }
 
 var c08Texts = []string{"", "plain", "́leading combining", "̈", "a\x00b", "ctl\x01\x02\x1f", "\xff\xfe invalid utf8", "\xc3", "astral 😀 𝔘", "{\\i1}x{", "}", "<b>unclosed", "&amp;&", "-->", "\n", "a\nb", "\r",
-	"tab\there", " ", "  lead", "trail  ", "  ", "\ufeff", "١٢٣", strings.Repeat("é", 200), "$¤Ω", " "}
+	"tab\there", " ", "  lead", "trail  ", "  ", "\ufeff", "١٢٣", strings.Repeat("é", 200), "x" + strings.Repeat("é", 200), "ab" + strings.Repeat("ñ", 70), "$¤Ω", " "}
 
 func c08Attrs(r *fw.Rand) *astisub.StyleAttributes {
 	if r.P(1, 3) {
@@ -728,7 +728,8 @@ func c08WriterCase(c *fw.Ctx) fw.Outcome {
 		var err error
 		var p string
 		done := make(chan struct{})
-		go func() { c08WatchedCall(func() { _, err, p = writeBytes(w, s) }); close(done) }()
+		var out []byte
+		go func() { c08WatchedCall(func() { out, err, p = writeBytes(w, s) }); close(done) }()
 		select {
 		case <-done:
 		case <-time.After(20 * time.Second):
@@ -739,6 +740,10 @@ func c08WriterCase(c *fw.Ctx) fw.Outcome {
 		c.Count("writer_calls", 1)
 		if err != nil {
 			c.Count("writer_errors", 1)
+		}
+		if w.name == "stl" && err == nil && p == "" && (len(out) < 1024 || (len(out)-1024)%128 != 0) {
+			// "returns bytes": of an EBU STL file, which is made of one 1024-byte block and 128-byte blocks whatever the text
+			return fw.Bad(key, seed, "stl writer returned %d bytes on a cue list built from the public types (list seed %d): not one 1024-byte block followed by whole 128-byte blocks", len(out), seed)
 		}
 		if p != "" {
 			return fw.Bad(key, seed, "%s writer panicked (site %s) on a cue list built from the public types (list seed %d: %d cues, metadata=%v, styles map=%v, regions map=%v): %s", w.name, panicSite(p), seed, len(s.Items), s.Metadata != nil, s.Styles != nil, s.Regions != nil, p)
